@@ -578,3 +578,47 @@ def c20n(ctx):
     cs = ctx.fn(T + ':Tile._cacheable_set')
     ok = all(any(isinstance(s, ast.Assign) and unparse(s.targets[0]) == 'self.' + w and unparse(s.value) == 'cacheable.' + w for s in cs.walk()) for w in ('timestamp', 'size'))
     ctx.check(ok, 'Tile.cacheable:carries-metadata', 'assigning a CacheInfo to Tile.cacheable sets time stamp and size as well', cs)
+
+
+@rule('C20.o', floor=2)
+def c20o(ctx):
+    """304 only for a validator that matches: the date of If-Modified-Since is compared as the date the client sent.  parse_httpdate
+    may expand a two digit year (a value below 100); it does not move a four digit year -- adding 2000 to every year below 1970 turned
+    `01 Jan 1960` into the year 3960, later than every tile, and such a request was answered 304"""
+    fn = ctx.fn('mapproxy/util/times.py:parse_httpdate')
+    g = fn.cfg
+    # statements that re-bind the parsed date with something added to its year
+    moved = [n for n in g.find_stmts(lambda s: isinstance(s, ast.Assign) and contains(s.value, lambda x: isinstance(x, ast.BinOp) and isinstance(x.op, ast.Add) and
+                                                                                      any(isinstance(const_value(o), int) and const_value(o) >= 100 for o in (x.left, x.right))))]
+    ok = all(g.guarded(n, lambda at: at.op == '<' and isinstance(const_value(at.right), int) and const_value(at.right) <= 100 and
+                       contains(at.left, lambda y: isinstance(y, ast.Subscript) and const_value(y.slice) == 0), True) for n in moved)
+    ctx.check(ok, 'parse_httpdate:only-two-digit-years-expanded', 'a century is only added to years below 100 (%d site(s))' % len(moved), fn,
+              fail='parse_httpdate moves four digit years: an If-Modified-Since date before 1970 becomes a date in the far future and is answered '
+                   '304 for every tile')
+    rets = [r for r in returns_of(fn.node) if r.value is not None and not (isinstance(r.value, ast.Constant) and r.value.value is None)]
+    ok = bool(rets) and all(is_call(r.value, 'calendar.timegm', 'timegm') for r in rets)
+    ctx.check(ok, 'parse_httpdate:utc', 'the date is converted as UTC (timegm)', fn)
+
+
+@rule('C20.p', floor=2)
+def c20p(ctx):
+    """a tile that must not be cached is sent with no-store directives -- and with nothing else: in the WMS-C path (tiled=true) of
+    WMSServer.map the validators and `public, max-age` of the tile are set only for a result that is cacheable; for the fill image of an
+    on_error rule the no-store branch is the only one that runs (both ran: the response carried two Cache-Control values and an ETag that
+    was answered 304)"""
+    fn = ctx.fn('mapproxy/service/wms.py:WMSServer.map')
+    g = fn.cfg
+    pub = [(n, x) for n, x in g.find(lambda x: is_call(x, 'resp.cache_headers')) if not (keyword(x, 'no_cache') is not None and const_value(keyword(x, 'no_cache')) is True)]
+    nos = [(n, x) for n, x in g.find(lambda x: is_call(x, 'resp.cache_headers')) if keyword(x, 'no_cache') is not None and const_value(keyword(x, 'no_cache')) is True]
+    cond = g.find(lambda x: is_call(x, 'resp.make_conditional'))
+    if not pub or not nos:
+        raise Undecided('WMSServer.map: cache header calls not found')
+
+    def cacheable(at):
+        return at.op is None and unparse(at.expr).endswith('result.cacheable')
+    ok = all(g.guarded(n, cacheable, True) for n, x in pub + cond)
+    ctx.check(ok, 'WMSServer.map:validators-only-for-cacheable-result', 'public cache headers / conditional answers only under `result.cacheable`', fn,
+              fail='WMSServer.map sets the public cache headers and validators of a WMS-C tile without asking whether the result may be cached: the '
+                   'uncached fill image is sent with max-age and an ETag next to no-store')
+    ok = all(g.guarded(n, cacheable, False) for n, x in nos)
+    ctx.check(ok, 'WMSServer.map:no-store-for-uncacheable-result', 'no-store is set exactly under `not result.cacheable`', fn)
